@@ -20,17 +20,18 @@ import (
 func TestMain(m *testing.M) { h.Main(m) }
 
 type Case struct {
-	Kind    string      `json:"kind"` // graft | merge | identical | single | subtree | clone | twin
-	Tree    *ref.Node   `json:"tree"`
-	Other   *ref.Node   `json:"other,omitempty"` // graft tree / second tree of a merge
-	Sel     int         `json:"sel,omitempty"`   // tip or inner node selector
-	Groups  [][]string  `json:"groups,omitempty"`
-	BadKind string      `json:"bad,omitempty"` // merge: overlap | unrooted ; identical: none-existing | two-existing
-	Indexed bool        `json:"indexed,omitempty"`
-	Via     string      `json:"via,omitempty"` // twin: clone | subtree
-	Ops     []ops.Op    `json:"ops,omitempty"`
-	EditSrc bool        `json:"edit_source,omitempty"` // twin: edit the source and watch the copy
-	Mem     int         `json:"mem,omitempty"`         // > 0: the main tree is re-rooted in memory first
+	Kind     string     `json:"kind"` // graft | merge | identical | single | subtree | clone | twin
+	Tree     *ref.Node  `json:"tree"`
+	Other    *ref.Node  `json:"other,omitempty"`     // graft tree / second tree of a merge
+	Sel      int        `json:"sel,omitempty"`       // tip or inner node selector
+	KeepName int        `json:"keep_name,omitempty"` // graft: > 0 = tip (KeepName-1)%n of the grafted tree carries the name of the replaced tip
+	Groups   [][]string `json:"groups,omitempty"`
+	BadKind  string     `json:"bad,omitempty"` // merge: overlap | unrooted ; identical: none-existing | two-existing
+	Indexed  bool       `json:"indexed,omitempty"`
+	Via      string     `json:"via,omitempty"` // twin: clone | subtree
+	Ops      []ops.Op   `json:"ops,omitempty"`
+	EditSrc  bool       `json:"edit_source,omitempty"` // twin: edit the source and watch the copy
+	Mem      int        `json:"mem,omitempty"`         // > 0: the main tree is re-rooted in memory first
 }
 
 var twinKinds = []string{"reroot", "outgroup", "midpoint", "unroot", "prune", "collapse_len", "collapse_sup", "collapse_depth",
@@ -43,6 +44,18 @@ func baseOpts(thorough bool) gen.Opts {
 	if thorough {
 		o.BigTips = 100
 	}
+	return o
+}
+
+// keepName returns the tree to graft: with KeepName set, one of its tips carries the name of the
+// tip it replaces.
+func keepName(c Case, replaced string) *ref.Node {
+	if c.KeepName == 0 {
+		return c.Other
+	}
+	o := c.Other.Clone()
+	tn := o.TipNodes()
+	tn[(c.KeepName-1)%len(tn)].Name = replaced
 	return o
 }
 
@@ -61,6 +74,12 @@ func genCase(t *rapid.T, thorough bool) Case {
 		g.MinTips, g.MaxTips, g.BigTips, g.NamePrefix = 2, 6, 0, "g"
 		c.Other = gen.Tree(t, g)
 		prefixNames(c.Other, "G_")
+		if rapid.IntRange(0, 2).Draw(t, "keepname") == 0 {
+			// the grafted clade holds a tip with the name of the tip it replaces (a sample replaced
+			// by the clade of its relatives): the name is free again once the tip is gone. The
+			// renaming is done by the check, which knows the tip (see keepName).
+			c.KeepName = 1 + rapid.IntRange(0, 5).Draw(t, "keepat")
+		}
 	case "merge":
 		o.Rooted = 1
 		c.Tree = gen.Tree(t, o)
@@ -280,12 +299,13 @@ func check(c Case) error {
 		if err != nil {
 			return err
 		}
+		tips := c.Tree.TipNodes()
+		tip := tips[c.Sel%len(tips)]
+		c.Other = keepName(c, tip.Name)
 		g, err := load(c.Other, c.Indexed)
 		if err != nil {
 			return err
 		}
-		tips := c.Tree.TipNodes()
-		tip := tips[c.Sel%len(tips)]
 		if err := t.GraftTreeOnTip(tip.Name, g); err != nil {
 			return fmt.Errorf("GraftTreeOnTip failed: %v%s", err, ctx(""))
 		}
@@ -322,7 +342,13 @@ func check(c Case) error {
 				return fmt.Errorf("graft: grafted tip %q not found by name%s", n, ctx(""))
 			}
 		}
-		if ok, _ := t.ExistsTip(tip.Name); ok {
+		reused := false
+		for _, n := range c.Other.Tips() {
+			if n == tip.Name {
+				reused = true
+			}
+		}
+		if ok, _ := t.ExistsTip(tip.Name); ok && !reused {
 			return fmt.Errorf("graft: replaced tip %q still found by name%s", tip.Name, ctx(""))
 		}
 		return nil
@@ -635,8 +661,8 @@ func TestC15Edits(t *testing.T) {
 	f := ref.F
 	h.Run(t, h.Spec[Case]{
 		Property: "C15", Name: "edits", Quick: 20000, Thorough: 800000,
-		Rule: "graft (every tip position, rooted/unrooted graft trees, fresh names): result equals the host model with the tip replaced by the graft's root, distances among old tips unchanged, look-ups updated; merge of rooted trees on disjoint tips (overlapping tips / unrooted input must be refused): both subtrees unchanged under a new root; identical tips (1-3 groups, 0-3 new tips each, zero-length tip branches frequent; groups with 0 or 2 existing members refused): old distances unchanged, new tip at distance 0 from its model and equidistant to all others; removal of single-child nodes (anywhere, chains, mixed absent/present lengths): none left, same split lengths and distances; subtree at every inner node = reference subtree; clone byte-identical incl. node and branch comments, supports, p-values; twin histories: 1-10 edits of 30 kinds (incl. comment, length and support edits) applied to a clone/subtree (or to the source) while the other tree's text and structure are observed after every step. Non-trivial = multifurcating or rooted tree and (for twins) >= 3 applied edits",
-		Gen: genCase, Check: check,
+		Rule: "graft (every tip position, rooted/unrooted graft trees, fresh names; in a third of the cases one grafted tip carries the name of the replaced tip): result equals the host model with the tip replaced by the graft's root, distances among old tips unchanged, look-ups updated; merge of rooted trees on disjoint tips (overlapping tips / unrooted input must be refused): both subtrees unchanged under a new root; identical tips (1-3 groups, 0-3 new tips each, zero-length tip branches frequent; groups with 0 or 2 existing members refused): old distances unchanged, new tip at distance 0 from its model and equidistant to all others; removal of single-child nodes (anywhere, chains, mixed absent/present lengths): none left, same split lengths and distances; subtree at every inner node = reference subtree; clone byte-identical incl. node and branch comments, supports, p-values; twin histories: 1-10 edits of 30 kinds (incl. comment, length and support edits) applied to a clone/subtree (or to the source) while the other tree's text and structure are observed after every step. Non-trivial = multifurcating or rooted tree and (for twins) >= 3 applied edits",
+		Gen:  genCase, Check: check,
 		Anchors: []Case{
 			{Kind: "clone", Tree: &ref.Node{Com: []string{"r"}, Ch: []*ref.Node{{Name: "a", Len: f(1), BCom: []string{"bc"}}, {Name: "b", Len: f(2), Com: []string{"nc"}}, {Sup: f(0.5), Pv: f(0.1), Len: f(0.25), BCom: []string{"x"}, Ch: []*ref.Node{{Name: "c"}, {Name: "d"}}}}}},
 			{Kind: "single", Tree: &ref.Node{Ch: []*ref.Node{{Len: f(0.5), Ch: []*ref.Node{{Ch: []*ref.Node{{Name: "a"}, {Name: "b"}}}}}, {Name: "c", Len: f(1)}, {Name: "d"}}}},
